@@ -26,10 +26,13 @@ SubF == Sc("sub", <<>>, <<Stmt("A", TRUE, <<FL(1, 2)>>, <<>>, <<I(8)>>, "none"),
                           Stmt("C", TRUE, <<>>, <<Kw("k", I(2))>>, <<I(3)>>, "none"), Stmt("A", TRUE, <<FL(3, 2)>>, <<>>, <<I(1)>>, "none")>>)
 TSubF == Sc("tsub", <<>>, <<Stmt("R", TRUE, <<Par("phi")>>, <<>>, <<I(1)>>, "none"),
                             Stmt("S", TRUE, <<Bin("*", Par("phi"), I(2)), Par("th")>>, <<Kw("g", Par("th"))>>, <<I(0), I(1)>>, "sq"),
-                            Stmt("T2", TRUE, <<Bin("+", Bin("*", I(2), Par("phi")), Par("th"))>>, <<>>, <<I(0)>>, "none")>>)
+                            Stmt("T2", TRUE, <<Bin("+", Bin("*", I(2), Par("phi")), Par("th"))>>, <<>>, <<I(0)>>, "none"),
+                            Stmt("Mx", FALSE, <<>>, <<>>, <<I(0)>>, "none"), Stmt("Vc", FALSE, <<>>, <<>>, <<I(1), I(0)>>, "sq")>>)     \* argument-less operations inside a template
 \* a template whose parameters occur bare and inside expressions, in positional and keyword position (for calls with measured registers)
 RSubF == Sc("rsub", <<>>, <<Stmt("Zr", TRUE, <<FL(1, 10)>>, <<Kw("eps", Par("u"))>>, <<I(0)>>, "none"), Stmt("Rr", TRUE, <<Par("u")>>, <<>>, <<I(1)>>, "none"),
                             Stmt("Dr", TRUE, <<Bin("*", I(2), Par("g"))>>, <<Kw("h", Bin("+", Par("g"), Par("u")))>>, <<I(1)>>, "none")>>)
+\* a template whose parameters are named like Python keywords and meet an ordinary one inside ONE argument (values must be bound by name)
+KSubF == Sc("ksub", <<>>, <<Stmt("Rk", TRUE, <<Bin("/", Bin("*", I(2), Par("d")), Par("lambda"))>>, <<Kw("w", Bin("-", Par("lambda"), Bin("*", Par("if"), Par("d"))))>>, <<I(0)>>, "none")>>)
 \* a directory of the main script's directory that is a symbolic link to a directory elsewhere: w/vendor -> ext/vendor.  The library in it
 \* includes "../common.xbb": that is ext/common.xbb (program CommonExt), NOT the file w/common.xbb next to the link.
 LinkTarget7(d) == IF d = W \o <<"vendor">> THEN <<"ROOT", "ext", "vendor">> ELSE d
@@ -48,6 +51,7 @@ UtilF == Sc("util", <<Rel(<<"..", "w", "sub">>, "inner.xbb")>>, <<Stmt("U", TRUE
 FS7(f) == CASE f = [dirs |-> W, file |-> "sub.xbb"] -> SubF
             [] f = [dirs |-> W, file |-> "tsub.xbb"] -> TSubF
             [] f = [dirs |-> W, file |-> "rsub.xbb"] -> RSubF
+            [] f = [dirs |-> W, file |-> "ksub.xbb"] -> KSubF
             [] f = [dirs |-> <<"ROOT", "ext", "vendor">>, file |-> "vlib.xbb"] -> VLibF
             [] f = [dirs |-> <<"ROOT", "ext">>, file |-> "common.xbb"] -> CommonExtF
             [] f = [dirs |-> W \o <<"sub">>, file |-> "inner.xbb"] -> InnerF
@@ -60,7 +64,7 @@ FS7(f) == CASE f = [dirs |-> W, file |-> "sub.xbb"] -> SubF
             [] f = [dirs |-> W \o <<"lib2">>, file |-> "chip2.xbb"] -> Chip2F
             [] OTHER -> NoFile
 Files == << [path |-> [dirs |-> <<"ROOT", "ext", "vendor">>, file |-> "vlib.xbb"], s |-> VLibF], [path |-> [dirs |-> <<"ROOT", "ext">>, file |-> "common.xbb"], s |-> CommonExtF],
-            [path |-> [dirs |-> W, file |-> "rsub.xbb"], s |-> RSubF], [path |-> [dirs |-> W, file |-> "sub.xbb"], s |-> SubF], [path |-> [dirs |-> W, file |-> "tsub.xbb"], s |-> TSubF],
+            [path |-> [dirs |-> W, file |-> "rsub.xbb"], s |-> RSubF], [path |-> [dirs |-> W, file |-> "ksub.xbb"], s |-> KSubF], [path |-> [dirs |-> W, file |-> "sub.xbb"], s |-> SubF], [path |-> [dirs |-> W, file |-> "tsub.xbb"], s |-> TSubF],
             [path |-> [dirs |-> W \o <<"sub">>, file |-> "inner.xbb"], s |-> InnerF], [path |-> [dirs |-> W, file |-> "outer.xbb"], s |-> OuterF],
             [path |-> [dirs |-> <<"ROOT", "lib">>, file |-> "util.xbb"], s |-> UtilF],
             [path |-> [dirs |-> W, file |-> "common.xbb"], s |-> CommonTopF], [path |-> [dirs |-> W \o <<"lib">>, file |-> "common.xbb"], s |-> CommonLibF],
@@ -68,7 +72,7 @@ Files == << [path |-> [dirs |-> <<"ROOT", "ext", "vendor">>, file |-> "vlib.xbb"
             [path |-> [dirs |-> W \o <<"lib2">>, file |-> "chip2.xbb"], s |-> Chip2F] >>
 
 Mains == { Sc("m1", <<Rel(<<>>, "sub.xbb")>>, <<>>),
-           Sc("m2", <<Rel(<<>>, "sub.xbb"), Rel(<<>>, "tsub.xbb")>>, <<>>),
+           Sc("m2", <<Rel(<<>>, "sub.xbb"), Rel(<<>>, "tsub.xbb"), Rel(<<>>, "ksub.xbb")>>, <<>>),
            Sc("m3", <<Rel(<<>>, "outer.xbb")>>, <<>>),                                  \* nested: inner becomes visible too
            Sc("m4", <<Rel(<<>>, "sub.xbb"), Rel(<<>>, "tsub.xbb"), Rel(<<>>, "sub.xbb")>>, <<>>),   \* repeated include line
            Sc("m5", <<AbsP(W, "tsub.xbb"), Rel(<<"..", "lib">>, "util.xbb")>>, <<>>),     \* absolute path, sibling directory, nested via ..
@@ -92,6 +96,9 @@ GoodItems == { Call("sub", <<I(0), I(1), I(2)>>), Call("sub", <<I(5), I(4), I(7)
            CallK("tsub", <<Kw("phi", [t |-> "neg", a |-> I(2)]), Kw("th", I(1))>>, <<I(2), I(0)>>),
            CallK("tsub", <<Kw("phi", [t |-> "neg", a |-> I(2)]), Kw("th", FL(1, 1))>>, <<I(1), I(3)>>),
            Call("vlib", <<I(3), I(1)>>), Call("CommonExt", <<I(6)>>),
+           \* keyword-like parameter names, the keywords written in two different orders
+           CallK("ksub", <<Kw("d", FL(3, 10)), Kw("lambda", FL(3, 2)), Kw("if", I(3))>>, <<I(1)>>),
+           CallK("ksub", <<Kw("if", FL(1, 2)), Kw("lambda", I(2)), Kw("d", FL(1, 4))>>, <<I(3)>>),
            \* measured registers handed to a template: bare, inside an expression, next to a number
            CallK("rsub", <<Kw("u", [t |-> "reg", n |-> 3]), Kw("g", FL(1, 2))>>, <<I(4), I(7)>>),
            CallK("rsub", <<Kw("u", Bin("*", I(2), [t |-> "reg", n |-> 3])), Kw("g", [t |-> "reg", n |-> 1])>>, <<I(5), I(6)>>),
